@@ -140,7 +140,7 @@ def count_case(rng, rank2clades):
     ts = t.tree_sequence()
     tree = ts.first()
     S = [int(u) for u in ts.samples()]
-    nsets = rng.randint(2, min(4, len(S)))
+    nsets = rng.randint(2, min(4, len(S))) if rng.random() < 0.7 else min(len(S), rng.choice([5, 6]))
     pool = S[:]
     rng.shuffle(pool)
     pool = pool[:rng.randint(min(len(pool), nsets + 1), len(pool))]
@@ -155,7 +155,7 @@ def count_case(rng, rank2clades):
             keys.append(list(K))
             for rank, cnt in tc[K].items():
                 r = (int(rank[0]), int(rank[1]))
-                counts.append(dict(key=list(K), rank=list(r), clades=rank2clades[(kk, r)], count=int(cnt)))
+                counts.append(dict(key=list(K), rank=list(r), clades=rank2clades.get((kk, r), [[-1]]), count=int(cnt)))     # a rank that names no topology is a value no expectation equals
     inc = list(ts.count_topologies(sets))
     per = [t.count_topologies(sets) for t in ts.trees()]
     return dict(kind="count", parent=[int(tree.parent(u)) for u in range(ts.num_nodes)], sets=sets, counts=counts, keys=keys,
@@ -173,7 +173,41 @@ def run():
         cases.append(c)
         for row in c["rows"]:
             rank2clades[(n, (row["shape"], row["label"]))] = row["clades"]
+    if maxn < 6:      # the rank -> clades dictionary for six-set combinations (the n=6 table itself is validated by TLC in the thorough tier)
+        for row in table_case(6, rng)["rows"]:
+            rank2clades[(6, (row["shape"], row["label"]))] = row["clades"]
     ntab = len(cases)
+    # default sample sets: one set per population id - also for populations without samples, which must keep their index
+    dflt = 0
+    for i in range(40 if QUICK else 1500):
+        n = rng.randint(3, 7)
+        tb = tskit.Tree.generate_random_binary(n, random_seed=rng.randrange(1, 2 ** 31)).tree_sequence.dump_tables()
+        npop = rng.randint(2, 4)
+        for _ in range(npop):
+            tb.populations.add_row()
+        used = rng.sample(range(npop), rng.randint(1, npop))
+        pop = np.array([rng.choice(used) if (tb.nodes.flags[u] & 1) else -1 for u in range(tb.nodes.num_rows)], dtype=np.int32)
+        tb.nodes.population = pop
+        tsd = tb.tree_sequence()
+        explicit = [[int(u) for u in tsd.samples() if pop[u] == p] for p in range(npop)]
+        chk.note_case(dict(default_sets=[int(x) for x in pop], npop=npop), len(used) < npop)
+        try:
+            tree = tsd.first()
+            a = tree.count_topologies()
+            b = tree.count_topologies(explicit)
+            c = list(tsd.count_topologies())
+            d = list(tsd.count_topologies(explicit))
+            same = all(a[K] == b[K] and c[0][K] == d[0][K] and a[K] == c[0][K]
+                       for kk in range(1, npop + 1) for K in itertools.combinations(range(npop), kk))
+        except Exception as e:  # noqa: BLE001
+            chk.violation("count_topologies with default sample sets raised: %s: %s" % (type(e).__name__, str(e)[:80]), dict(pop=[int(x) for x in pop], npop=npop))
+            continue
+        if not same:
+            chk.violation("count_topologies(): the default sample sets are not one set per population id", dict(pop=[int(x) for x in pop], npop=npop, n=n))
+        else:
+            dflt += 1
+            chk.traces += 1
+    chk.extra["default_sample_set_cases"] = dflt
     for i in range(150 if QUICK else 3000):
         c = count_case(rng, rank2clades)
         if c is not None:
